@@ -382,15 +382,23 @@ GENERATORS = {'C01': c01, 'C02': c02, 'C03': c03}
 
 def _late():
     from . import gen2
-    GENERATORS.update({'C07': gen2.c07, 'C09': gen2.c09, 'C10': gen2.c10, 'C11': gen2.c11, 'C12': gen2.c12, 'C13': gen2.c13})
+    GENERATORS.update({'C07': gen2.c07, 'C09': gen2.c09, 'C10': gen2.c10, 'C11': gen2.c11, 'C12': gen2.c12, 'C13': gen2.c13, 'C05': gen2.c05})
 
 
-def generate(prop, tier, seed):
+def generate(prop, tier, seed, genfn=None, first=1):
     _late()
     from . import props
-    rng = random.Random(seed * 1000003 + int(prop[1:]))
-    g = props.PROPS[prop].get('gen') or GENERATORS[prop]
+    rng = random.Random(seed * 1000003 + int(prop[1:]) + 7919 * first)
+    if isinstance(genfn, str):
+        from . import gen2
+        genfn = getattr(gen2, genfn)
+    genfn = genfn or props.PROPS[prop].get('gen')
+    if isinstance(genfn, str):
+        from . import gen2
+        genfn = getattr(gen2, genfn)
+    g = genfn or GENERATORS[prop]
     scens = g(tier, rng)
     for i, s in enumerate(scens):
-        s['sc'] = i + 1
+        s['sc'] = first + i
+        s.setdefault('steps', [])
     return scens
